@@ -65,7 +65,8 @@ Definition native_gate (f : N) (e : native_entry) : bool := has f (nm_flags e).
 
 (* ---- effect machine ----
    A program is a tree of instructions: a system call of the table, a System.Contract.Call into a native method,
-   a System.Contract.Call into a deployed method with a body, or System.Runtime.LoadScript of a body.
+   a System.Contract.Call into a deployed method with a body, a CALLT (method token) into a deployed method with a
+   body, or System.Runtime.LoadScript of a body.
    Running it yields the list of effects (each with the flags of the frame that performed it) and whether the run
    completed (false = FAULT at a refused gate / unknown entry). *)
 Inductive effect := EWrite | ENotify | ECall.
@@ -80,7 +81,13 @@ Inductive instr :=
 | ISys (name : string)
 | INative (contract method : string) (arity requested : N)
 | ICall (requested : N) (safe : bool) (body : list instr)
+| ICallT (token_flags : N) (safe : bool) (body : list instr)
 | ILoad (requested : N) (body : list instr).
+
+(* the CALLT opcode (contract.LoadToken): no row in the system-call table; the handler itself requires the executing
+   context to have BOTH ReadStates and AllowCall, and the callee gets  caller's flags & the token's flags
+   (through the same callInternal: a safe callee loses WriteStates|AllowNotify) *)
+Definition callt_required : N := N.lor ReadStates AllowCall.
 
 Definition trace := list (effect * N).
 
@@ -134,6 +141,10 @@ Section Machine.
         | None => ([], false)
         | Some tr0 => let '(tr, ok) := run_with (exec (callee_flags f r s)) body in (tr0 ++ tr, ok)
         end
+    | ICallT r s body =>
+        if has f callt_required
+        then let '(tr, ok) := run_with (exec (callee_flags f r s)) body in ((ECall, f) :: tr, ok)
+        else ([], false)
     | ILoad r body =>
         match sys_step f "System.Runtime.LoadScript" with
         | None => ([], false)
